@@ -66,6 +66,13 @@ def run(ctx):
         srcs['p%d' % i] = {'inl': with_src, 'sub': subset, 'out': without}
     for k, s in FIXED.items():
         srcs[k] = {'inl': s, 'sub': s, 'out': s.replace('inline ', '')}
+    # early returns in front of a tail made of asm() statements only
+    for i in range(40 if quick else 800):
+        tail = ' '.join('asm("nop ; e%d_%d");' % (i, j) for j in range(rng.randrange(1, 3)))
+        body = rng.choice(['if (a) return;', 'if (a == 1) return; if (b) return;', 'while (a) { a--; if (b) return; }'])
+        pre = rng.choice(['', 'b++;', 'asm("nop ; p%d");' % i])
+        s_ = 'unsigned char a, b;\ninline void f() { %s %s %s }\nvoid main() { f(); %s }\n' % (pre, body, tail, rng.choice(['', 'f();', 'b = 1;']))
+        srcs['e%d' % i] = {'inl': s_, 'sub': s_, 'out': s_.replace('inline ', '')}
     # nested inlining, each level expanded several times
     for i in range(60 if quick else 1500):
         s = nested_inline_program(rng)
@@ -87,7 +94,7 @@ def run(ctx):
                 # declaring a function inline may legitimately be refused (e.g. defined after use)
                 pass
         nprog += len(ok)
-        ce = coexec(ok, 12 if quick else 32, rng, layout_from='out')
+        ce = coexec(ok, 12 if quick else 32, rng, layout_from='out', with_trace=True)
         for pid, m in ce.items():
             base = m['runs']['out']
             for vn in ('inl', 'sub'):
@@ -96,8 +103,13 @@ def run(ctx):
                     if a is None or b is None:
                         raise HarnessError('missing co-execution result')
                     nexec += 1
-                    if observable(a) != observable(b):
-                        viol.append({'why': 'final state differs with and without the inline keyword', 'level': O, 'variant': vn,
+                    # inline assembly lines and protected (hardware / timing) instructions executed, in order;
+                    # branch events are left out: the expansion clears the protection of renamed branches
+                    ev = lambda r: [e for e in (r.get('trace') or []) if not re.match(r'I(BCC|BCS|BEQ|BMI|BNE|BPL|JMP)', e)]
+                    if observable(a) != observable(b) or (a['tag'] == 'halt' and ev(a) != ev(b)):
+                        viol.append({'why': 'final state differs with and without the inline keyword' if observable(a) != observable(b) else
+                                            'the sequence of inline-assembly lines / protected instructions executed differs with and without the inline keyword: %s vs %s' % (ev(a), ev(b)),
+                                     'level': O, 'variant': vn,
                                      'with_inline': srcs[pid][vn], 'without_inline': srcs[pid]['out'],
                                      'initial': describe_state(m['layout'], m['states'][k], m['watch']),
                                      'out_of_line': describe_run(m['layout'], a, m['watch']),
